@@ -812,9 +812,12 @@ ASSUMPTIONS = [
     'any ERROR-level log record on these repairable inputs is a violation',
 ]
 
+# the slowest case on the unchanged tree takes a few seconds; a repair that runs for minutes is given up as inconclusive
+CASE_TIMEOUT = 240
+
 PARTS = [
-    Part('blocks', run, enumerate=_enumerate),
-    Part('presentations', run, strategy=_strategy, examples={'quick': 1500, 'thorough': 60000},
+    Part('blocks', run, enumerate=_enumerate, case_timeout=CASE_TIMEOUT),
+    Part('presentations', run, strategy=_strategy, examples={'quick': 1500, 'thorough': 60000}, case_timeout=CASE_TIMEOUT,
          floors={'symmetric': 0.5, 'symmetric-heavy': 0.2, 'removal+extras': 0.12, 'two-residue': 0.1, 'extras-same-element': 0.06,
                  'extra-stands-in': 0.008, 'reordered': 0.4, 'heavy-renamed': 0.3, 'atoms-rebuilt': 0.2, 'input-disconnected': 0.1}),
 ]
